@@ -33,6 +33,9 @@ type c06Cfg struct {
 	InitialAs   string
 	InitialData []byte
 	Cookie      bool
+	// Greeting: the application's connection listener sends a message on the new session before it returns
+	// (the usual greeting idiom); with an initial packet configured the greeting comes after it
+	Greeting bool
 }
 
 func (c c06Cfg) String() string {
@@ -40,8 +43,8 @@ func (c c06Cfg) String() string {
 	if c.AllowUpgrades != nil {
 		au = fmt.Sprint(*c.AllowUpgrades)
 	}
-	return fmt.Sprintf("{pingInterval=%v pingTimeout=%v maxPayload=%d transports=%v allowUpgrades=%s allowEIO3=%v initial=%s(%d bytes) cookie=%v}",
-		c.PingInterval, c.PingTimeout, c.MaxPayload, c.Transports, au, c.AllowEIO3, c.Initial, len(c.InitialData), c.Cookie)
+	return fmt.Sprintf("{pingInterval=%v pingTimeout=%v maxPayload=%d transports=%v allowUpgrades=%s allowEIO3=%v initial=%s(%d bytes) cookie=%v greetingInConnectionListener=%v}",
+		c.PingInterval, c.PingTimeout, c.MaxPayload, c.Transports, au, c.AllowEIO3, c.Initial, len(c.InitialData), c.Cookie, c.Greeting)
 }
 
 type c06HS struct {
@@ -101,6 +104,7 @@ func genC06Cfg(rt *rapid.T) c06Cfg {
 		c.InitialAs = "std"
 	}
 	c.Cookie = rapid.Bool().Draw(rt, "cookie")
+	c.Greeting = rapid.IntRange(0, 2).Draw(rt, "greetingInConnectionListener") == 0
 	return c
 }
 
@@ -238,7 +242,7 @@ func doHandshake(w *World, h c06HS) (*c06Sess, string) {
 
 func TestC06Handshake(t *testing.T) {
 	col := NewCollector("TestC06Handshake",
-		"rapid: a server configuration (ping interval/timeout on a ms grid 1ms..1h, maxHttpBufferSize 1..1e8, every non-empty subset of {polling,websocket,webtransport}, allowUpgrades unset/true/false, allowEIO3, initial packet none/text/binary, cookie) and 1-4 handshakes (carrier polling/jsonp/websocket/webtransport x EIO 4/3/absent x b64 x j) on one server inside a virtual-time bubble; oracle: admitted iff transport enabled and (EIO=4 or allowEIO3); exactly one connection event (session open) and one registry entry per admitted handshake; first packet is open with exactly {sid,upgrades,pingInterval,pingTimeout,maxPayload} equal to the session id / configured ms / configured limit / (upgrade targets of the transport ∩ enabled, empty when upgrades disabled or not polling); configured initial packet is the first message, byte- and kind-identical, for every session; Socket.Protocol() is 4 iff EIO=4; afterwards a revision-4 session is pinged by the server after one ping interval and a revision-3 session answers a client ping with a pong, payloads decode in the revision's format. non-trivial: >=2 non-default option dimensions or a second session on the same server").Use(t)
+		"rapid: a server configuration (ping interval/timeout on a ms grid 1ms..1h, maxHttpBufferSize 1..1e8, every non-empty subset of {polling,websocket,webtransport}, allowUpgrades unset/true/false, allowEIO3, initial packet none/text/binary, cookie, an application connection listener that sends a greeting on the new session before it returns) and 1-4 handshakes (carrier polling/jsonp/websocket/webtransport x EIO 4/3/absent x b64 x j) on one server inside a virtual-time bubble; oracle: admitted iff transport enabled and (EIO=4 or allowEIO3); exactly one connection event (session open) and one registry entry per admitted handshake; first packet is open with exactly {sid,upgrades,pingInterval,pingTimeout,maxPayload} equal to the session id / configured ms / configured limit / (upgrade targets of the transport ∩ enabled, empty when upgrades disabled or not polling); configured initial packet is the first message, byte- and kind-identical, for every session; Socket.Protocol() is 4 iff EIO=4; afterwards a revision-4 session is pinged by the server after one ping interval and a revision-3 session answers a client ping with a pong, payloads decode in the revision's format. non-trivial: >=2 non-default option dimensions or a second session on the same server").Use(t)
 	knownInit := isKnown("C06", sigInitialPacket)
 	rapid.Check(t, func(rt *rapid.T) {
 		cfg := genC06Cfg(rt)
@@ -266,6 +270,9 @@ func TestC06Handshake(t *testing.T) {
 		res := bubble(t, func() {
 			w = NewWorld(cfg.options())
 			defer w.Teardown()
+			if cfg.Greeting {
+				w.OnConn = func(sr *SessRec) { sr.Sock.Send(strings.NewReader(c06Greeting), nil, nil) }
+			}
 			admittedCount := 0
 			for i, h := range hss {
 				desc := fmt.Sprintf("%v handshake #%d %v", cfg, i, h)
@@ -368,7 +375,14 @@ func TestC06Handshake(t *testing.T) {
 					return
 				}
 				// initial packet
-				if s.pc != nil && cfg.Initial != "none" && len(recv) < 2 {
+				wantAfterOpen := 0
+				if cfg.Initial != "none" {
+					wantAfterOpen++
+				}
+				if cfg.Greeting {
+					wantAfterOpen++
+				}
+				if s.pc != nil && len(recv) < 1+wantAfterOpen {
 					// polling: may arrive with the next poll
 					s.pc.StartPoll()
 					Settle()
@@ -388,7 +402,16 @@ func TestC06Handshake(t *testing.T) {
 						fail = fmt.Sprintf("%s (session %d on this server): packets after open are %v, want the initial packet %v first", desc, admittedCount, recv[1:], want)
 						return
 					}
-				} else if len(recv) > 1 {
+					if cfg.Greeting {
+						classes["initial-packet-and-a-greeting-from-the-connection-listener"] = true
+					}
+				}
+				if cfg.Greeting {
+					if g := (Pkt{Type: tMessage, Data: []byte(c06Greeting)}); len(recv) != 1+wantAfterOpen || !recv[wantAfterOpen].Equal(g) {
+						fail = fmt.Sprintf("%s: packets after open are %v, want the connection listener's greeting %v after the open packet and the initial packet, and nothing else", desc, recv[1:], g)
+						return
+					}
+				} else if len(recv) > 1+wantAfterOpen {
 					fail = fmt.Sprintf("%s: unexpected packets after open: %v", desc, recv[1:])
 					return
 				}
@@ -501,12 +524,14 @@ func TestC06Handshake(t *testing.T) {
 			rt.Fatalf("%v %v: %s\nevents: %v", cfg, hss, clipStr(res.Leak, 1500), w.Log)
 		}
 	})
-	req := []string{"carrier.polling", "carrier.jsonp", "carrier.websocket", "carrier.webtransport", "rev3", "rev4", "refused", "upgrades-nonempty", "second-session", "initial-packet", "v4-server-ping-seen", "v3-pong-seen"}
+	req := []string{"carrier.polling", "carrier.jsonp", "carrier.websocket", "carrier.webtransport", "rev3", "rev4", "refused", "upgrades-nonempty", "second-session", "initial-packet", "v4-server-ping-seen", "v3-pong-seen", "initial-packet-and-a-greeting-from-the-connection-listener"}
 	if !knownInit {
 		req = append(req, "initial-packet-second-session", "initial-packet-given-as-a-standard-library-reader-second-session")
 	}
 	col.RequireClasses(t, req...)
 }
+
+const c06Greeting = "greeting from the connection listener"
 
 var httpCookieIO = http.Cookie{Name: "io", Path: "/", HttpOnly: true, SameSite: http.SameSiteLaxMode}
 
